@@ -507,4 +507,16 @@ theorem lost_reply_charges_bucket (c : TCfg) (s : Sys) (i ns n : Nat) (k : LostK
   | deadline => exact ⟨rfl, fun _ => ⟨rfl, rfl⟩, fun h => LostKind.noConfusion h⟩
   | timeout => exact ⟨by simp [Sys.rescuePath], fun h => LostKind.noConfusion h, fun _ => rfl⟩
 
+/-- **The breaker's and the limiter's view of errors agree where it matters**: the token script's `false` (`redis.Nil`) is
+neither a failure for the client's breaker nor a reason to leave the shared bucket — it refuses; and whatever the
+breaker counts as a failure never grants on the store path. -/
+theorem script_false_is_no_failure :
+    breakerAccepts .redisNil = true ∧ reserveDecide .nilReply = .deny ∧
+    (∀ e : ErrClass, breakerAccepts e = false → ∃ r, e.treply = some r ∧ reserveDecide r ≠ .grant) := by
+  refine ⟨rfl, rfl, ?_⟩
+  intro e h
+  cases e <;> simp [breakerAccepts] at h
+  · exact ⟨.ctxErr, rfl, by simp [reserveDecide]⟩
+  · exact ⟨.err, rfl, by simp [reserveDecide]⟩
+
 end GoZero.C03.PropsApi
